@@ -27,6 +27,9 @@ type Env struct {
 	depth    int
 	quants   []*quantCtx
 	pol      int // +1: formula is a goal (to be proved); -1: hypothesis (assumed); 0: unknown/mixed
+	// instAt: while re-evaluating an assumed clause, every outermost universally quantified conjunct is replaced by its
+	// instance at this index term (a consequence of the clause; see Enc.instancesFor)
+	instAt string
 }
 
 func (env *Env) flip() *Env {
@@ -945,6 +948,46 @@ func (e *Enc) evalCall(n *ast.CallExpr, env *Env) Val {
 		bv := fmt.Sprintf("%s!q%d", id.Name, e.n)
 		q := &quantCtx{bv: bv, k: bv + "!k", apply: -1}
 		qn := map[string]string{"all": "forall", "any": "exists"}[fname]
+		if len(env.quants) == 0 && ((fname == "all" && env.pol < 0) || (fname == "any" && env.pol > 0)) {
+			if env.instAt != "" {
+				// instance of an assumed universal (resp. witness candidate for an existential goal) at a given index
+				t := env.instAt
+				switch t {
+				case "@first":
+					t = lo
+				case "@last":
+					t = m.isub(hi, m.ilit(1))
+				}
+				inner := env.with(id.Name, Val{T: types.Typ[types.Int], L: []string{t}})
+				inner.instAt = ""
+				p := e.evalExpr(n.Args[3], inner)
+				if p.Bad || len(p.L) != 1 {
+					return Val{Bad: true}
+				}
+				if fname == "all" {
+					return Val{T: boolT, L: []string{implies(and(m.ile(lo, t), m.ilt(t, hi)), p.L[0])}}
+				}
+				return Val{T: boolT, L: []string{and(m.ile(lo, t), m.ilt(t, hi), p.L[0])}}
+			}
+			e.sawHypAll = true
+		}
+		if len(env.quants) == 0 && env.instAt == "" && !e.noSkolem && ((fname == "all" && env.pol > 0) || (fname == "any" && env.pol < 0)) {
+			// a universal goal (existential hypothesis) is skolemised here, so that the assumed universals can be
+			// instantiated at the skolem constant (and at the bounds) explicitly
+			e.n++
+			sk := fmt.Sprintf("sk!%d", e.n)
+			e.emitDecl(fmt.Sprintf("(declare-const %s %s)", sk, m.smtSort(SI)))
+			e.skolemBounds[sk] = [2]string{lo, hi}
+			inner := env.with(id.Name, Val{T: types.Typ[types.Int], L: []string{sk}})
+			p := e.evalExpr(n.Args[3], inner)
+			if p.Bad || len(p.L) != 1 {
+				return Val{Bad: true}
+			}
+			if fname == "all" {
+				return Val{T: boolT, L: []string{implies(and(m.ile(lo, sk), m.ilt(sk, hi)), p.L[0])}}
+			}
+			return Val{T: boolT, L: []string{and(m.ile(lo, sk), m.ilt(sk, hi), p.L[0])}}
+		}
 		rng := and(m.ile(lo, bv), m.ilt(bv, hi))
 		guard := "true"
 		evalBody := func() (string, bool) {
